@@ -227,7 +227,7 @@ def shards(tier, seed):
     out.append(dict(shard=len(out), seed=seed, mode="shortcuts"))
     k = 3 if tier == "quick" else 16
     for i in range(k):
-        out.append(dict(shard=len(out), seed=seed, mode="random", n=4000 if tier == "quick" else 60000))
+        out.append(dict(shard=len(out), seed=seed, mode="random", n=4000 if tier == "quick" else 300000))
     return out
 
 
